@@ -91,6 +91,7 @@ fn ct_err(e: &CustomTypeParseError) -> String {
         CustomTypeParseError::InvalidUtf8(_) => "utf8".into(),
         CustomTypeParseError::InvalidParameterCount { actual, expected } => format!("paramcount:{}:{}", actual, expected),
         CustomTypeParseError::NestingTooDeep(_) => "depth".into(),
+        CustomTypeParseError::ZeroVectorDimensions => "zerodim".into(),
         _ => "ct?".into(),
     }
 }
